@@ -36,6 +36,7 @@ CfgOf(e) ==
     consuming |-> e.consuming,
     clones    |-> e.kind \in CloneKinds,
     nthreads  |-> e.threads,
+    extra     |-> IF "revive" \in DOMAIN e THEN e.revive ELSE 0,
     kind      |-> e.kind ]
 
 E == Rec[l]
@@ -79,7 +80,8 @@ TRet ==
 
 TVisit ==
   /\ IsEvent("Visit")
-  /\ LET i == CHOOSE i \in DOMAIN mon : mon[i].op[E.t] # "" \/ i = 0 IN
+  /\ LET act == {j \in DOMAIN mon : mon[j].op[E.t] # ""}      \* the iterator whose composite op is in flight on this thread
+         i == IF act = {} THEN 0 ELSE CHOOSE j \in act : TRUE IN
      Advance(Upd(i, MVisit(mon[i], E.t, IF IsInt(E.idx) THEN E.idx ELSE -9, E.val, E.pidx)))
   /\ Count("Visit")
 
@@ -107,6 +109,13 @@ TCloneElem ==
   /\ IsEvent("CloneElem")
   /\ Advance(Upd(0, MCloneElem(mon[0], E.id)))
   /\ Count("CloneElem")
+
+TPartial ==
+  /\ IsEvent("Partial")
+  /\ LET act == {j \in DOMAIN mon : mon[j].op[E.t] # ""}
+         i == IF act = {} THEN 0 ELSE CHOOSE j \in act : TRUE IN
+     Advance(Upd(i, MPartial(mon[i], E.vals)))
+  /\ UNCHANGED seen
 
 TSrcCheck ==
   /\ IsEvent("SrcCheck")
@@ -137,14 +146,14 @@ Init ==
   /\ l = 1
   /\ run = -1
   /\ mon = (0 :> MonInit([len |-> 0, base |-> 0, fam |-> "counter", hint |-> "exact",
-                          consuming |-> FALSE, clones |-> FALSE, nthreads |-> 0, kind |-> ""]))
+                          consuming |-> FALSE, clones |-> FALSE, nthreads |-> 0, extra |-> 0, kind |-> ""]))
   /\ viol = {}
   /\ seen = [k \in {"Reset", "Call", "Ret", "Visit", "A", "NextEnter", "NextExit", "DropElem",
                     "CloneElem", "SrcCheck", "Mem", "Hang", "Abort", "End"} |-> 0]
 
 Next ==
   \/ TReset \/ TCall \/ TRet \/ TVisit \/ TAtomic \/ TNextEnter \/ TNextExit
-  \/ TDropElem \/ TCloneElem \/ TSrcCheck \/ TMem \/ THang \/ TAbort \/ TEnd
+  \/ TDropElem \/ TCloneElem \/ TPartial \/ TSrcCheck \/ TMem \/ THang \/ TAbort \/ TEnd
 
 Spec == Init /\ [][Next]_vars
 
